@@ -9,6 +9,7 @@ import (
 	"errors"
 	"fmt"
 	"io"
+	"math"
 	"net"
 	"sync"
 	"sync/atomic"
@@ -1018,6 +1019,10 @@ func (c *Conn) processPacket(pkt *dtlsflight.Packet) ([]byte, error) { //nolint:
 		if err != nil {
 			return nil, err
 		}
+	}
+	if len(rawPacket)-pkt.Record.Header.Size() > math.MaxUint16 {
+		// The cipher suites write the length as 16 bits: it would wrap.
+		return nil, dtlserrors.ErrRecordTooLong
 	}
 
 	return rawPacket, nil
